@@ -130,19 +130,25 @@ theorem C14_unbounded_prefix (k : Fmt) (preload : Bool) (file : List α) (chosen
   have := C14_run k preload file chosen ⟨0, 0⟩ (some c) c hf (by simp [target])
   simpa [cancelled] using this
 
-/-- **cancelled in the middle** (of a pass, of the run): the context is cancelled when `c ≥ 1` ammo have been
-acquired and `c` is below the number `m` of ammo the bounded run would deliver — both modes have delivered exactly the
-first `c` entries of the repeated list of the entries whose tag is listed, `Run` returns context.Canceled in both
-modes and the sink is closed. -/
-theorem C14_chosen_cancelled (k : Fmt) (preload : Bool) (tags cases : List String) (b : Bounds) (m c : Nat)
+/-- **cancelled in the middle** (of a pass, of the run): the context is cancelled when `c` ammo have been acquired
+and `c` is below the number `m` of ammo the run would deliver by itself (any `c` for a run without limit and passes)
+— both modes have delivered exactly the first `c` entries of the repeated list of the entries whose tag is listed,
+`Run` returns context.Canceled in both modes and the sink is closed. -/
+theorem C14_chosen_cancelled (k : Fmt) (preload : Bool) (tags cases : List String) (b : Bounds) (c : Nat)
     (hcases : cases ≠ []) (hf : 0 < (listed tags cases).length)
-    (hm : Spec.C14.expected b.limit b.passes (listed tags cases).length = some m) (hcm : c < m) :
+    (hcm : ∀ m, Spec.C14.expected b.limit b.passes (listed tags cases).length = some m → c < m) :
     run k preload tags cases b (some c) = some ⟨cyclicPrefix (listed tags cases) c, .canceled, true⟩ := by
   unfold listed at *
-  rw [← filter_isChosen_eq_mem cases hcases] at hf hm ⊢
-  rw [expected_eq_target _ _ _ hf] at hm
+  rw [← filter_isChosen_eq_mem cases hcases] at hf hcm ⊢
+  rw [expected_eq_target _ _ _ hf] at hcm
   have hT : target b.limit b.passes ((mkFile tags).filter (isChosen cases)).length (some c) = some c := by
-    rw [target_cancel _ _ _ m c hm, Nat.min_eq_left (by omega)]
+    cases hE : target b.limit b.passes ((mkFile tags).filter (isChosen cases)).length none with
+    | none =>
+      obtain ⟨h1, h2⟩ := (target_none_iff _ _ _).mp hE
+      simp [target, h1, h2]
+    | some m =>
+      have := hcm m hE
+      rw [target_cancel _ _ _ m c hE, Nat.min_eq_left (by omega)]
   have := C14_run k preload (mkFile tags) (isChosen cases) b (some c) c hf hT
   simpa [run, cancelled] using this
 
@@ -371,7 +377,11 @@ example : (run .jsonLines true ["t1", "t2", "t3"] ["t2", "t3"] ⟨5, 0⟩ (some 
     = some ([1, 2, 1], .canceled, true) := by decide
 -- hypotheses of C14_chosen_cancelled / C14_passes_complete / C14_exactly_listed
 example : ["t2", "t3"] ≠ [] ∧ 0 < (listed ["t1", "t2", "t3"] ["t2", "t3"]).length ∧
-    Spec.C14.expected 5 0 (listed ["t1", "t2", "t3"] ["t2", "t3"]).length = some 5 ∧ 3 < 5 := by decide
+    (∀ m, Spec.C14.expected 5 0 (listed ["t1", "t2", "t3"] ["t2", "t3"]).length = some m → 3 < m) := by
+  refine ⟨by decide, by decide, ?_⟩
+  intro m h
+  have : Spec.C14.expected 5 0 (listed ["t1", "t2", "t3"] ["t2", "t3"]).length = some 5 := by decide
+  rw [this] at h; cases h; decide
 example : (run .raw true ["t1", "t2", "t3"] ["t2", "t3"] ⟨0, 2⟩ none).map (fun o => o.delivered.map (·.id)) = some [1, 2, 1, 2] := by decide
 -- the regenerated IsChosenCase on concrete tags: whole-tag, case-sensitive comparison; untagged entries
 example : Gen.ChosenCases.isChosenCase "ab" ["a", "b"] = false ∧ Gen.ChosenCases.isChosenCase "B" ["b"] = false ∧
